@@ -1,11 +1,16 @@
 #!/bin/sh
-# usage: tools/seedtest.sh <property id> <patch file> [tier]   — apply a seeded change to /repo, run the check, undo
+# usage: tools/seedtest.sh <property id> <patch file> [tier]   — apply a seeded change to /repo, run the check, undo.
+# The evidence file of the property is saved and restored (evidence must come from the unchanged tree).
 cd /verif
-PID=$1; PATCH=$2; TIER=${3:-quick}
+PID=$1; PATCH=$(realpath $2); TIER=${3:-quick}
 git -C /repo diff --quiet || { echo "repo not clean"; exit 2; }
-git -C /repo apply "$(realpath $PATCH)" || { echo "PATCH-DOES-NOT-APPLY $PATCH"; exit 3; }
+cp evidence/$PID.json /tmp/evidence_$PID.bak 2>/dev/null
+git -C /repo apply "$PATCH" || { echo "PATCH-DOES-NOT-APPLY $PATCH"; exit 3; }
 ./check $PID $TIER > /tmp/seedtest.out 2>&1; rc=$?
 git -C /repo checkout -- .
+python3 tools/extract.py > /dev/null
+cp /tmp/evidence_$PID.bak evidence/$PID.json 2>/dev/null
 grep -E "^VIOLATION|obligations|KNOWN" /tmp/seedtest.out | head -5
 rm -rf replays/$PID
 echo "seedtest $PID $(basename $(dirname $PATCH))/$(basename $PATCH): exit=$rc"
+exit $rc
